@@ -1,24 +1,10 @@
-import PsModel.Spec.C01
+import PsModel.Lemmas.C01Scope
 set_option linter.unusedSectionVars false
 set_option linter.unusedSimpArgs false
 /-! helper lemmas for C01: pure operands, keyword merging, and the handler-by-handler agreement with the reference -/
 namespace PsModel.C01
 
 variable {W : Type}
-
-@[simp] theorem py_dictKeyFirst : Cfg.python.dictKeyFirst = true := rfl
-@[simp] theorem py_callArgsFirst : Cfg.python.callArgsFirst = true := rfl
-@[simp] theorem py_compareOnce : Cfg.python.compareOnce = true := rfl
-@[simp] theorem py_augTargetOnce : Cfg.python.augTargetOnce = true := rfl
-@[simp] theorem py_augInPlace : Cfg.python.augInPlace = true := rfl
-@[simp] theorem py_fstrConversion : Cfg.python.fstrConversion = true := rfl
-@[simp] theorem py_dupKwCheck : Cfg.python.dupKwCheck = true := rfl
-@[simp] theorem py_listTarget : Cfg.python.listTarget = true := rfl
-@[simp] theorem py_uaddApplies : Cfg.python.uaddApplies = true := rfl
-
-@[simp] theorem bind_ok {α β} (a : α) (w : W) (k : α → W → R W β) : bind ((.ok a, w) : R W α) k = k a w := rfl
-@[simp] theorem bind_err {α β} (e : Exc) (w : W) (k : α → W → R W β) :
-    bind ((.error e, w) : R W α) k = (.error e, w) := rfl
 
 theorem eval_const (cfg : Cfg) (P : Prims W) (e : Expr) (h : e.isConst = true) (σ : Store) (w : W) :
     ∃ k, eval cfg P e σ w = (.ok (k, σ), w) := by
@@ -76,27 +62,20 @@ theorem kwMergeAll_flag (cfg py : Cfg) (h : cfg.dupKwCheck = true) (h' : py.dupK
     | error e => rfl
 
 
-theorem bind_congr {α β} {r r' : R W α} {k k' : α → W → R W β} (hr : r = r') (hk : ∀ a w, k a w = k' a w) :
-    bind r k = bind r' k' := by
-  subst hr
-  rcases r with ⟨(e | a), w⟩
-  · rfl
-  · exact hk a w
+theorem iterM_congr (body body' : Val → Store → W → R W (List Item × Store)) (h : ∀ v σ w, body v σ w = body' v σ w)
+    (vals : List Val) (σ : Store) (w : W) : iterM body vals σ w = iterM body' vals σ w := by
+  have : body = body' := by funext v σ w; exact h v σ w
+  subst this; rfl
 
-/-- a configuration with every handler in its Python shape -/
-structure AllOn (py : Cfg) : Prop where
-  dictKeyFirst : py.dictKeyFirst = true
-  callArgsFirst : py.callArgsFirst = true
-  compareOnce : py.compareOnce = true
-  augTargetOnce : py.augTargetOnce = true
-  augInPlace : py.augInPlace = true
-  fstrConversion : py.fstrConversion = true
-  dupKwCheck : py.dupKwCheck = true
-  listTarget : py.listTarget = true
-  uaddApplies : py.uaddApplies = true
-  kwGroupMerge : py.kwGroupMerge = true
-
-theorem allOn_python : AllOn Cfg.python := ⟨rfl, rfl, rfl, rfl, rfl, rfl, rfl, rfl, rfl, rfl⟩
+theorem genStep_congr (asg asg' : Val → Store → W → R W Store) (conds conds' : Store → W → R W (Bool × Store))
+    (inner inner' : Store → W → R W (List Item × Store))
+    (ha : ∀ v σ w, asg v σ w = asg' v σ w) (hc : ∀ σ w, conds σ w = conds' σ w) (hi : ∀ σ w, inner σ w = inner' σ w)
+    (vals : List Val) (σ : Store) (w : W) :
+    genStep asg conds inner vals σ w = genStep asg' conds' inner' vals σ w := by
+  have h1 : asg = asg' := by funext v σ w; exact ha v σ w
+  have h2 : conds = conds' := by funext σ w; exact hc σ w
+  have h3 : inner = inner' := by funext σ w; exact hi σ w
+  subst h1; subst h2; subst h3; rfl
 
 /-! ### constant operand lists evaluate without any effect -/
 
@@ -317,6 +296,67 @@ theorem eval_eq : ∀ (e : Expr) (σ : Store) (w : W), Conf cfg e = true → eva
     simp only [Conf] at h
     simp only [eval]
     exact bind_congr (eval_eq e σ w h) fun _ _ => rfl
+  | .comp _ _ [], σ, w, h => by simp [Conf] at h
+  | .comp isSet elt (.mk t it ifs :: gs), σ, w, h => by
+    simp only [Conf, ConfGens, Bool.and_eq_true, Bool.or_eq_true] at h
+    obtain ⟨⟨⟨he, ⟨⟨⟨ht, hit⟩, hifs⟩, hgs⟩⟩, _⟩, hfr⟩ := h
+    simp only [eval, hp.compFresh, if_true]
+    refine bind_congr (eval_eq it σ w hit) fun a w => bind_congr rfl fun vals w => ?_
+    rw [genStep_congr _ (fun v σ w => assign py P t v σ w) _ (fun σ w => evalConds py P ifs σ w) _
+      (fun σ w => compGens py P (fun σ w => bind (eval py P elt σ w) fun e w => (.ok ([(none, e.1)], e.2), w)) gs σ w)
+      (fun v σ w => assign_eq t v σ w ht) (fun σ w => evalConds_eq ifs σ w hifs)
+      (fun σ w => compGens_eq gs _ _ σ w hgs fun σ w => bind_congr (eval_eq elt σ w he) fun _ _ => rfl)]
+    cases hc : cfg.compFresh with
+    | true => rfl
+    | false =>
+      simp only [hc, Bool.false_eq_true, false_or] at hfr
+      simp only [Bool.false_eq_true, if_false]
+      refine (bind_rel_restore (t.names ++ gensNames gs) _ _ _ ?_ (genStep_top P py hp t ifs gs _ hfr vals a.2 w)).symm
+      intro items s U' w hU'
+      simp only [restore_hide_sub _ _ _ _ hU']
+  | .dictcomp _ _ [], σ, w, h => by simp [Conf] at h
+  | .dictcomp k v (.mk t it ifs :: gs), σ, w, h => by
+    simp only [Conf, ConfGens, Bool.and_eq_true, Bool.or_eq_true] at h
+    obtain ⟨⟨⟨⟨hk, hv⟩, ⟨⟨⟨ht, hit⟩, hifs⟩, hgs⟩⟩, _⟩, hfr⟩ := h
+    simp only [eval, hp.compFresh, if_true]
+    refine bind_congr (eval_eq it σ w hit) fun a w => bind_congr rfl fun vals w => ?_
+    rw [genStep_congr _ (fun v σ w => assign py P t v σ w) _ (fun σ w => evalConds py P ifs σ w) _
+      (fun σ w => compGens py P (fun σ w => bind (eval py P k σ w) fun kv w => bind (eval py P v kv.2 w) fun e w =>
+                                     (.ok ([(some kv.1, e.1)], e.2), w)) gs σ w)
+      (fun v σ w => assign_eq t v σ w ht) (fun σ w => evalConds_eq ifs σ w hifs)
+      (fun σ w => compGens_eq gs _ _ σ w hgs fun σ w =>
+        bind_congr (eval_eq k σ w hk) fun kv w => bind_congr (eval_eq v kv.2 w hv) fun _ _ => rfl)]
+    cases hc : cfg.compFresh with
+    | true => rfl
+    | false =>
+      simp only [hc, Bool.false_eq_true, false_or] at hfr
+      simp only [Bool.false_eq_true, if_false]
+      refine (bind_rel_restore (t.names ++ gensNames gs) _ _ _ ?_ (genStep_top P py hp t ifs gs _ hfr vals a.2 w)).symm
+      intro items s U' w hU'
+      simp only [restore_hide_sub _ _ _ _ hU']
+
+theorem evalConds_eq : ∀ (cs : List Expr) (σ : Store) (w : W), ConfList cfg cs = true →
+    evalConds cfg P cs σ w = evalConds py P cs σ w
+  | [], _, _, _ => by simp [evalConds]
+  | c :: cs, σ, w, h => by
+    simp only [ConfList, Bool.and_eq_true] at h
+    simp only [evalConds]
+    refine bind_congr (eval_eq c σ w h.1) fun a w => ?_
+    split
+    · exact evalConds_eq cs a.2 w h.2
+    · rfl
+
+theorem compGens_eq : ∀ (gs : List Gen) (item item' : Store → W → R W (List Item × Store)) (σ : Store) (w : W),
+    ConfGens cfg gs = true → (∀ σ w, item σ w = item' σ w) →
+    compGens cfg P item gs σ w = compGens py P item' gs σ w
+  | [], item, item', σ, w, _, hi => by simp only [compGens]; exact hi σ w
+  | .mk t it ifs :: gs, item, item', σ, w, h, hi => by
+    simp only [ConfGens, Bool.and_eq_true] at h
+    obtain ⟨⟨⟨ht, hit⟩, hifs⟩, hgs⟩ := h
+    simp only [compGens]
+    refine bind_congr (eval_eq it σ w hit) fun a w => bind_congr rfl fun vals w => ?_
+    exact genStep_congr _ _ _ _ _ _ (fun v σ w => assign_eq t v σ w ht) (fun σ w => evalConds_eq ifs σ w hifs)
+      (fun σ w => compGens_eq gs item item' σ w hgs hi) vals a.2 w
 
 theorem evalOpt_eq : ∀ (o : Option Expr) (σ : Store) (w : W), ConfOpt cfg o = true →
     evalOpt cfg P o σ w = evalOpt py P o σ w
@@ -482,22 +522,19 @@ theorem evalParts_eq : ∀ (ps : List FPart) (σ : Store) (w : W), ConfParts cfg
     rw [hconv]
     exact bind_congr (eval_eq e σ w he) fun a w => bind_congr (evalOpt_eq spec a.2 w hs) fun s w =>
       bind_congr rfl fun v w => bind_congr (evalParts_eq r s.2 w hr) fun _ _ => rfl
-end
 
-
-mutual
 theorem assign_eq : ∀ (t : Target) (v : Val) (σ : Store) (w : W), ConfT cfg t = true →
     assign cfg P t v σ w = assign py P t v σ w
   | .name _, _, _, _, _ => by simp [assign]
   | .sub e i, v, σ, w, h => by
     simp only [ConfT, Bool.and_eq_true] at h
     simp only [assign]
-    exact bind_congr (eval_eq cfg P py hp e σ w h.1) fun a w =>
-      bind_congr (eval_eq cfg P py hp i a.2 w h.2) fun _ _ => rfl
+    exact bind_congr (eval_eq e σ w h.1) fun a w =>
+      bind_congr (eval_eq i a.2 w h.2) fun _ _ => rfl
   | .attr e a, v, σ, w, h => by
     simp only [ConfT] at h
     simp only [assign]
-    exact bind_congr (eval_eq cfg P py hp e σ w h) fun _ _ => rfl
+    exact bind_congr (eval_eq e σ w h) fun _ _ => rfl
   | .tup isList before star after, v, σ, w, h => by
     simp only [ConfT, Bool.and_eq_true, Bool.or_eq_true, Bool.not_eq_true'] at h
     obtain ⟨⟨hl, hb⟩, ha⟩ := h
